@@ -227,13 +227,36 @@ class SemLockPart(E2Prop):
 
 # =============================================================================================== part cond (E1)
 
-def _forked(fn, arg, deadline=90):
-    """run fn(arg) in a forked child (fresh threads, gc disabled there), return its pickled result"""
+def _kill_session(sid):
+    """kill every process of session `sid` except resource trackers (they clean up the semaphores and exit on EOF)"""
+    for d in os.listdir("/proc"):
+        if not d.isdigit():
+            continue
+        try:
+            with open(f"/proc/{d}/stat") as f:
+                st = f.read()
+            fields = st[st.rindex(")") + 2:].split(" ")
+            if int(fields[3]) != sid:
+                continue
+            with open(f"/proc/{d}/cmdline", "rb") as f:
+                cmd = f.read()
+            if b"resource_tracker" in cmd:
+                continue
+            os.kill(int(d), 9)
+        except (OSError, ValueError):
+            continue
+
+
+def _forked(fn, arg, deadline=90, session=False):
+    """run fn(arg) in a forked child (fresh threads, gc disabled there), return its pickled result; with
+    `session` the child leads a new session so that it and everything it started can be killed at the deadline"""
     r, w = os.pipe()
     pid = os.fork()
     if pid == 0:
         try:
             os.close(r)
+            if session:
+                os.setsid()
             try:
                 data = pickle.dumps(("ok", fn(arg)))
             except BaseException:      # noqa: BLE001
@@ -257,6 +280,8 @@ def _forked(fn, arg, deadline=90):
         buf += b
     os.close(r)
     if not ok:
+        if session:
+            _kill_session(pid)
         try:
             os.kill(pid, 9)
         except OSError:
@@ -815,6 +840,13 @@ def _xproc_scenarios(which):
     raise C.Infra("unknown xproc scenario " + which)
 
 
+def _xproc_guarded(which):
+    try:
+        return _xproc_scenarios(which)
+    except C.Infra as e:
+        return ("infra", str(e))
+
+
 XPROC = ["event", "lock", "semaphore", "notify", "notify_all", "child_waiters"]
 
 
@@ -832,7 +864,14 @@ class XProcPart:
             "holding the lock; notify_all in the parent wakes two child waiters. thorough repeats each 3 times.")
 
     def _run(self, which):
-        return _xproc_scenarios(which)
+        # a broken protocol can dead-lock real processes for good: every scenario runs in its own session with a
+        # hard deadline, after which the whole session is killed (infrastructure error, never a violation)
+        k, v = _forked(_xproc_guarded, which, deadline=110, session=True)
+        if k != "ok":
+            raise C.Infra(f"xproc scenario {which}: {v}")
+        if isinstance(v, tuple) and v[0] == "infra":
+            raise C.Infra(v[1])
+        return v
 
     def correspondence(self, ctx, corr):
         corr.rule = self.rule
